@@ -788,8 +788,8 @@ def _daemon(ctx, processor, rng, scratch, ro):
     plans += [(gen_big(rng, kinds=(0, 1)), gen_env(rng, 2000, daemon=True, ro=ro), ["inline"]),
               (gen_big(rng, kinds=(0, 1)), gen_env(rng, 2001, daemon=True, ro=ro), ["depend"])]
     if not ctx.quick():
-        plans += [(gen_big(rng, kinds=(0, 1)), gen_big(rng, kinds=(0, 1)), routes) for _ in range(3)]
-        plans += [(e, e, routes) for e in corpus]
+        plans += [(gen_big(rng, kinds=(0, 1)), gen_big(rng, kinds=(0, 1)), routes) for _ in range(2)]
+        plans += [(e, e, [routes[i % 3]]) for i, e in enumerate(corpus)]
         plans += [(gen_env(rng, i, daemon=True, ro=ro), gen_env(rng, 5000 + i, daemon=True, ro=ro), [routes[i % 3]]) for i in range(30)]
         # big transfers (several pipe buffers)
         big = {"VT_big%d" % i: gen_value(rng) * 40 + "é'\\" * 2000 for i in range(8)}
